@@ -504,17 +504,19 @@ def corruptions(tp_xs):
 EXPECT_CONNECTION_ERROR = {"missing", "width", "init", "second-output", "obj-width", "obj-init", "const-differs", "const-vs-signal"}
 
 
-def run_corruption(xs, modes, cor):
-    """-> (outcome class name or 'no-error', statements left in the module)"""
+def run_corruption(xs, modes, cor, base_ifaces):
+    """-> (outcome class name or 'no-error', statements left in the module). base_ifaces: the uncorrupted interface
+    objects (connect() does not modify them); only the corrupted interface is re-created / patched and restored."""
     from amaranth.hdl import Module, Signal, Const, Shape
     from amaranth.lib import wiring as W
     kind, j, where, _alt, (lvl, arg) = cor
-    xs = list(xs)
+    ifaces = list(base_ifaces)
+    undo = []
     if lvl == "tree":
-        xs[j] = arg
-    ifaces = [realize(x, modes[i], f"i{i}") for i, x in enumerate(xs)]
-    if lvl == "obj":
+        ifaces[j] = realize(arg, modes[j], f"i{j}")
+    else:
         what, w, sg, iv = arg
+        undo.append((j, walk(ifaces[j], where)))
         if what == "signal":
             put(ifaces[j], where, Signal(Shape(w, sg), init=iv))
         else:
@@ -522,6 +524,7 @@ def run_corruption(xs, modes, cor):
             if what == "const2":
                 lv = [{l[0]: l for l in R.leaves(x)} for x in xs]
                 o = [i for i in range(len(xs)) if lv[i][where][1] == "o"][0]
+                undo.append((o, walk(ifaces[o], where)))
                 put(ifaces[o], where, Const(to_shape(iv + 1, w, sg), Shape(w, sg)))
     m = Module()
     try:
@@ -529,6 +532,9 @@ def run_corruption(xs, modes, cor):
         res = "no-error"
     except Exception as e:
         res = ename(e)
+    finally:
+        for i, oldv in undo:
+            put(ifaces[i], where, oldv)
     return res, n_statements(m)
 
 
@@ -549,7 +555,8 @@ def part_corrupt(tree, out, bases):
         xs = derive(tree, k, pattern)
         try:
             m = Module()
-            W.connect(m, *[realize(x, modes[i], f"i{i}") for i, x in enumerate(xs)])
+            base_ifaces = [realize(x, modes[i], f"i{i}") for i, x in enumerate(xs)]
+            W.connect(m, *base_ifaces)
         except Exception:
             out.add("corruption_bases_skipped_connect_fails")     # reported by part_connect
             continue
@@ -559,7 +566,7 @@ def part_corrupt(tree, out, bases):
             out.add("corruptions")
             out.add("corrupt_" + kind)
             try:
-                res, nst = run_corruption(xs, modes, cor)
+                res, nst = run_corruption(xs, modes, cor, base_ifaces)
             except Exception as e:
                 out.viol(f"corrupt:{vname}:{c}:{cor_tag(cor)}:setup:{ename(e)}", f"building the corrupted tuple raised {e!r}",
                          tree, "corrupt")
@@ -666,7 +673,7 @@ def run(rep):
     rep.setcov("space_hash", hashlib.sha1("\n".join(sorted(seen)).encode()).hexdigest())
     opts = {"parts": ["sig", "connect", "corrupt", "meta"],
             "variations": QUICK_VARS if rep.quick else list(VARIATIONS),
-            "bases": ["k2:T+T.flip"] if rep.quick else ["k2:T+T.flip", "k3:rr"],
+            "bases": ["k2:T+T.flip"] if rep.quick else ["k2:T+T.flip", "k3:rr", "k2:T+flipped(T)"],
             "all_perm_sims": not rep.quick, "meta_both": True, "meta_max_members": rep.pick(3, 99)}
     # heavier trees first would need a cost model; interleave instead
     tasks = [(ch, opts) for ch in chunks(trees, 12)]
